@@ -20,7 +20,8 @@ LEVEL_TEXT = ("The real parser, streaming loop and header assembly are executed 
               "variable (0..3 MiB+2 at unit level; small files and files around 1..3 streaming buffers at static_file level), the "
               "Range header is 'bytes=A-B[,..]' with symbolic digit strings up to 7 digits and free ASCII text of bounded "
               "length, GET/HEAD is a solver boolean; If-Modified-Since dates are concrete (before/equal/after; three formats and "
-              "a second time zone in the thorough tier). "
+              "a second process time zone in the thorough tier; the same "
+              "instants also written with zone designators +0200/-0500/+0530/EST/+0000). "
               "On every path the answer is 416 or a 206 whose Content-Range, Content-Length and delivered chunks are the "
               "RFC 7233 slice of the first range, no chunk above the buffer; no Range: whole file, true length; date not older: "
               "304 without body; HEAD: same headers, no body. Bounded, not a proof.")
@@ -455,16 +456,22 @@ def http_dates(ts):
     }
 
 
+ZONES = {"+0000": 0, "+0200": 7200, "-0500": -18000, "+0530": 19800, "EST": -18000}
+
+
+def zoned_date(instant, zone):
+    """the instant (epoch seconds) written as rfc1123 local time of `zone` followed by the zone designator"""
+    return time.strftime("%a, %d %b %Y %H:%M:%S ", time.gmtime(instant + ZONES[zone])) + zone
+
+
 def set_zone(tz):
     """process time zone for parse_date (time.mktime / time.timezone); every query that sends a date sets its own"""
     os.environ["TZ"] = tz
     time.tzset()
 
 
-def make_cond(fmt, delta, mtime, tz):
-    ims = http_dates(int(mtime) + delta)[fmt]
-    not_older = delta >= 0
-
+def make_cond(ims, not_older, mtime, tz):
+    """ims: concrete If-Modified-Since text; not_older: whether the instant it names is >= the file's mtime second"""
     def q(n: int, A: str, B: str, ranged: bool, head: bool):
         set_zone(tz)
         assume(0 <= n <= 12)
@@ -630,11 +637,24 @@ def queries(tier):
         conds += [(f, d, summer, "EST5EDT") for f in ("rfc1123", "asctime") for d in (-1, 0, 1)]
     for fmt, delta, mtime, tz in conds:
         add("cond/%s/%+d/%s/%s" % (fmt, delta, "frac" if mtime % 1 else "summer" if mtime == summer else "int", tz),
-            make_cond(fmt, delta, mtime, tz),
+            make_cond(http_dates(int(mtime) + delta)[fmt], delta >= 0, mtime, tz),
             "static_file, If-Modified-Since = mtime%+ds in %s format (concrete), mtime %r, process time zone %s, n in [0, 12], "
             "with and without Range 'bytes=A-B' (A, B empty or one digit), %s" % (delta, fmt, mtime, tz, both),
             (17, 17) if delta < 0 else (3, 3), ["304", "head"] if delta >= 0 else ["200", "206-exact", "416", "head"],
             "cond", {"ims": http_dates(int(mtime) + delta)[fmt], "mtime": mtime, "tz": tz})
+    # --- the same instants written with a zone designator: the answer goes by the instant named, not by the clock reading
+    zoned = [("+0200", -1, "UTC"), ("+0530", -3600, "UTC"), ("-0500", 0, "UTC"), ("-0500", 3600, "UTC"), ("EST", 1, "UTC"),
+             ("+0000", 0, "UTC")]
+    if T:
+        zoned = [(z, d, "UTC") for z in ZONES for d in (-3600, -1, 0, 1, 3600)]
+        zoned += [("+0200", -1, "EST5EDT"), ("-0500", 0, "EST5EDT"), ("EST", 3600, "EST5EDT")]
+    for zone, delta, tz in zoned:
+        ims = zoned_date(MTIME_S + delta, zone)
+        add("cond/zone%s/%+d/%s" % (zone, delta, tz), make_cond(ims, delta >= 0, float(MTIME_S), tz),
+            "static_file, If-Modified-Since %r = mtime%+ds written in zone %s (concrete), process time zone %s, n in [0, 12], "
+            "with and without Range 'bytes=A-B' (A, B empty or one digit), %s" % (ims, delta, zone, tz, both),
+            (17, 17) if delta < 0 else (3, 3), ["304", "head"] if delta >= 0 else ["200", "206-exact", "416", "head"],
+            "cond", {"ims": ims, "instant": MTIME_S + delta, "tz": tz})
     # --- through the application
     nw = 3 if not T else len(WSGI_DATA)
     for tag, delta in (("plain", None), ("equal", 0)) + ((("older", -1), ("newer", 1)) if T else ()):
@@ -693,6 +713,11 @@ def selftest(tier):
     # the format(int) model, decided by the engine itself for every |n| <= 10^7
     r = engine.explore("format-model", stubs_c17.format_model_check, timeout=120)
     assert r.status == "confirmed", (r.status, r.cex, r.error)
+    # the zoned dates name the intended instants (decided by the standard library, not by ombott)
+    from email.utils import parsedate_to_datetime
+    for zone in ZONES:
+        for d in (-3600, -1, 0, 1, 3600):
+            assert parsedate_to_datetime(zoned_date(MTIME_S + d, zone)).timestamp() == MTIME_S + d, (zone, d)
     # reference arithmetic on the repository's own examples (tests/response/test_static_file.py)
     assert clip(None, 10, 100) == ("slice", 90, 100) and clip(10, None, 100) == ("slice", 10, 100)
     assert clip(5, 10, 100) == ("slice", 5, 11) and reference("10-25,-80", 3000) == ("slice", 10, 26)
@@ -710,6 +735,8 @@ def selftest(tier):
         ("static/whole", dict(n=0, head=True), "ok"),
         ("wsgi/plain", dict(n=3, A="1", B="2", ranged=True, head=True), "ok"),
         ("wsgi/equal", dict(n=3, A="", B="", ranged=False, head=True), "ok"),
+        ("cond/zone+0200/-1/UTC", dict(n=10, A="0", B="", ranged=True, head=True), "ok"),
+        ("cond/zone-0500/+0/UTC", dict(n=10, A="", B="", ranged=False, head=True), "ok"),
         ("parse/closed", dict(n=100, A="5", B="10"), "ok"),
         ("stream/default", dict(n=NMAX, off=1, ln=NMAX - 1, m=MAXREAD), "ok"),
     ]
